@@ -169,11 +169,25 @@ def _chain(e):
 def s6(ck, an):
     fa = an.fa("TradingEnvXY.__init__")
     subj = fa.f.short
-    # transformer_end resolution
-    te_defs = [d for d in fa.rd.defs if d.var == "transformer_end" and d.kind == "assign"]
-    ok = len(te_defs) == 1 and isinstance(te_defs[0].value, ast.BoolOp) and isinstance(te_defs[0].value.op, ast.Or) and [ast.unparse(v) for v in te_defs[0].value.values] == ["transformer_end", "end"]
-    ck.check(ok, "LINT", "S6.transformer-end-default", subj, fa.f.loc, "transformer_end defaults to end and is otherwise the user's cut-off", f"transformer_end = {[ast.unparse(d.value) for d in te_defs]}",
-             construct="transformer_end = transformer_end or end")
+    # transformer_end resolution: value ids against the reference implementation of the constructor (rules/C18.py), so that
+    # `x = x or d`, `if not x: x = d`, a helper computing the default, ... are one value
+    from rules import C18
+    ref = reference(fa, C18.REF_XY_INIT.format(sig=ast.unparse(fa.f.node.args)))
+    ref_last = C18._super_init_call(ref)
+    want_upper = {nm: ref.sym.canon(ast.Name(id=nm, ctx=ast.Load()), ref.node_of(ref_last).id) for nm in ("transformer_end", "end")}
+
+    def upper_id(sub: ast.Subscript):
+        sl = sub.slice
+        if isinstance(sl, ast.Tuple):
+            sl = sl.elts[0]
+        if not (isinstance(sl, ast.Slice) and sl.upper is not None and sl.step is None):
+            return None
+        n_ = fa.cfg.node_of(sub)
+        return fa.sym.canon(sl.upper, n_.id if n_ is not None else None)
+    te_uses = [(n_, upper_id(n_)) for n_ in walk_function(fa.f.node) if isinstance(n_, ast.Subscript) and isinstance(n_.value, ast.Attribute) and n_.value.attr == "loc"]
+    te_uses = [(n_, u) for n_, u in te_uses if u is not None and "transformer_end" in u]
+    ck.check(bool(te_uses) and all(u == want_upper["transformer_end"] for _, u in te_uses), "LINT", "S6.transformer-end-default", subj, fa.f.loc, "transformer_end defaults to end and is otherwise the user's cut-off",
+             f"cut-offs derived from transformer_end: {sorted({u for _, u in te_uses})}; specified {want_upper['transformer_end']}", construct="transformer_end = transformer_end or end")
 
     # a transformer object given by the caller (possibly fitted on the caller's own cut-off) is used as it is
     given = [s_ for s_ in assigns_to_attr(fa, "transformer") if any(p[0] == "truthy" and p[2] and "isinstance(transformer" in p[1] and "TransformerMixin" in p[1] for p in fa.syntactic_guards(s_))]
@@ -189,10 +203,8 @@ def s6(ck, an):
     def bounded_by(sub: ast.Subscript, name: str) -> bool:
         if not (isinstance(sub.value, ast.Attribute) and sub.value.attr == "loc"):
             return False
-        sl = sub.slice
-        if isinstance(sl, ast.Tuple):
-            sl = sl.elts[0]
-        return isinstance(sl, ast.Slice) and sl.upper is not None and isinstance(sl.upper, ast.Name) and sl.upper.id == name and sl.step is None
+        u = upper_id(sub)
+        return u is not None and u == want_upper[name]
 
     params = {"X", "Y"}
 
